@@ -122,6 +122,41 @@ claim(
     "Threads stand in for worker processes (sound only if the library keeps no process-global mutated state; backed by the fresh-interpreter arm). Pre-emption only at file-system operations. Natural pictures swapped for the test-suite's small ones; seven tiny codec columns (corpus/codec_features.csv). Sampling, not proof.",
 )
 
+_D_NOTE = "Degenerate single-node case of the technique: no scheduler, clock or multi-party dimension; a seeded operation/fault history, an executable reference model (or differential oracle), shrinking and exact replay. If a reviewer regards this as outside the family, this is the check to discount. Sampling, not proof."
+
+claim(
+    "C20",
+    "D (API-call histories, single node)",
+    "DESIGN.md §7, §8 C20",
+    "seeded operation-history search vs reference model (single node, no scheduler): write/read/seek/tell histories on BitstreamWriter, BitstreamReader and the validator's reader over simulated files incl. truncated copies (EOF instant)",
+    "Seeded search over histories of primitive writes (bits, fixed-width and byte literals, bit arrays, byte strings, exp-Golomb values up to 2^70, in and out of range), bounded blocks of positive/zero/negative length with values running past their end, byte-aligned seek-back patches, flushes and tells, then the mirrored read history on both readers over the written bytes and over a truncated copy, then seeks and re-reads. A list-of-bits model predicts every value, position, unused-bit count, error class and the EOF instant.",
+    _D_NOTE + " Negative block lengths are checked on the reader/writer pair only (unreachable for the validator; observation O3).",
+)
+claim(
+    "C21",
+    "D (API-call histories, single node)",
+    "DESIGN.md §7, §8 C21",
+    "seeded program/history search with round-trip differential oracle and expected-error rules (single node, no scheduler) over random serdes programs",
+    "Seeded search over random serdes programs (primitives, lists, nested typed/untyped sub-descriptions, bounded blocks, byte alignment, computed values, default tables) run by the real Deserialiser on seeded random bit strings and by the real Serialiser on the result, with one history fault per run (truncated input, deleted/defaulted value, unused value or list element, reused target, unclosed block/sub-description). Round trips must reproduce the consumed bits and an equal description; typed contexts must be reachable as their fixeddict type; each fault must raise the documented error class.",
+    _D_NOTE,
+)
+claim(
+    "C27",
+    "D (API-call histories, single node)",
+    "DESIGN.md §7, §8 C27",
+    "seeded operation-history search vs plain-dict reference model (single node, no scheduler) over every fixeddict type, incl. pickle and the worker-command transport",
+    "Seeded search over histories of construction, item assignment, setdefault, update, in-place merge, copy, delete and pickle round trips (pickle protocols 0-5 and the worker encode/decode transport) on every fixeddict type the library defines, with declared and undeclared keys; after every operation the key set must stay within the declared keys, undeclared keys must raise FixedDictKeyError, content must equal a plain-dict model, and copies/unpickled objects must be equal and of the same type.",
+    _D_NOTE,
+)
+claim(
+    "C28",
+    "A' (text channel on a stored configuration file)",
+    "DESIGN.md §8 C28",
+    "seeded storage-fault search (character/cell/line level) on the stored codec-features CSV files with a domain oracle; weakest fit of the technique (no scheduler or clock)",
+    "Seeded search over lists of storage faults on three stored CSV files (truncation at any character, dropped/duplicated/swapped lines, overwritten cells, added rows/columns, inserted quotes/NUL/BOM, CR/LF changes) delivered exactly as the CLI delivers them (UTF-8 bytes through a utf-8-sig TextIOWrapper). read_codec_features_csv must return configurations inside their documented domains or raise InvalidCodecFeaturesError; any other exception or an out-of-domain value is a violation.",
+    "Weakest fit: a configuration file at rest is the only seam; inputs stay valid UTF-8 and below 64 KiB. Sampling, not proof.",
+)
+
 NOT_BUILT = "check not built yet in this tree (planned: DESIGN.md §8); not claimed until it runs clean"
 
 
